@@ -44,6 +44,9 @@ def run(ctx):
         import docwalk
         ctx.guard(docwalk.cursor_advance, ctx, cfg, fs, 'K.cursor', r'render_console$|Doc::first_line$')
         ctx.guard(docwalk.payload_writers, ctx, cfg, fs, 'K.cursor')
+        import c04 as c04_, c08 as c08_
+        ctx.guard(c08_.keep_only, ctx, lambda: c04_.str_index(ctx, cfg, fs), lambda o: 'Splitter' in o.key, 'S.splitter')
+        ctx.guard(c08_.keep_only, ctx, lambda: c04_.str_cut(ctx, cfg, fs), lambda o: 'Splitter' in o.key, 'S.splitter')
         import c12
         ctx.guard(c12.embedders, ctx, cfg, fs, 'K.skip-pairing')
         ctx.guard(docwalk.block_pairing, ctx, cfg, fs, 'K.skip-pairing', r'impl buffer::Doc>::render_console$', [('skip', r'buffer::Skip::push$', r'buffer::Skip::pop$')])
